@@ -39,17 +39,12 @@ func genCfg(r *vh.Rng, h int, thorough bool) envCfg {
 	default:
 		c.Max = 64
 	}
-	c.Pool = make([]uuid.UUID, 12)
-	for i := range c.Pool {
-		var b [16]byte
-		a, d := r.U64(), r.U64()
-		for j := 0; j < 8; j++ {
-			b[j] = byte(a >> (8 * j))
-			b[8+j] = byte(d >> (8 * j))
-		}
-		b[6] = (b[6] & 0x0f) | 0x40
-		b[8] = (b[8] & 0x3f) | 0x80
-		c.Pool[i] = uuid.UUID(b)
+	// boundary values of the identifier type are in every pool (vh.UuidPool): the nil uuid (the zero
+	// value of uuid.UUID - what stray zero keys of a pre-sized slice or an unset field address), the
+	// max uuid, ids one bit / one byte apart, ids that differ only in version / variant bits
+	c.Pool = make([]uuid.UUID, 0, 12)
+	for _, b := range vh.UuidPool(r, 12) {
+		c.Pool = append(c.Pool, uuid.UUID(b))
 	}
 	return c
 }
